@@ -1,5 +1,5 @@
 (* Properties_C20.v — C20: validate() reports real conflicts, and only those. *)
-From ElfioV Require Import Bytes Mem Stream SectionData Elfio Table Layout Writer Validate_proofs.
+From ElfioV Require Import Bytes Mem Stream SectionData Elfio Table Layout Writer Validate_proofs Layout_proofs Validate_writer.
 Local Open Scope N_scope.
 
 (* Two non-empty sections that occupy file space and share a file byte are
@@ -51,6 +51,21 @@ Theorem C20_consistent_accepted_partial :
     validate el = [].
 Proof. exact validate_clean. Qed.
 Print Assumptions C20_consistent_accepted_partial.
+
+(* what the writer lays out for an object without segments is accepted: after
+   the layout step of save(), validate() has no complaint (sections of type
+   SHT_NULL are empty, as is the section with index 0) *)
+Theorem C20_accepts_writer_output_without_segments :
+  forall el h0 bound,
+    el_hdr el = Some h0 -> el_segs el = [] ->
+    bound <= 2 ^ 63 -> Forall (fun s => bound <= 2 ^ xw (s_cls s)) (el_secs el) ->
+    e_ehsize h0 + budget (el_secs el) + 16 < bound ->
+    lenN (el_secs el) < 2 ^ 16 ->
+    (forall s, In s (el_secs el) -> sh_type s = SHT_NULL -> sh_size s = 0) ->
+    (forall s, In s (el_secs el) -> s_index s = 0 -> sh_size s = 0 \/ sh_type s = SHT_NOBITS) ->
+    exists el', layout el = Ok (el', true) /\ validate el' = [].
+Proof. exact validate_accepts_noseg_layout. Qed.
+Print Assumptions C20_accepts_writer_output_without_segments.
 
 (* the pair test is exact on sections that occupy file space *)
 Theorem C20_pair_test_exact :
